@@ -568,7 +568,13 @@ func c13Run(r *core.Run) {
 		r.Fault("response-stream-reset")
 	} else {
 		if !base.ok {
-			r.Notes["internal_error"] = fmt.Sprintf("fault-free output phase failed for %s: %v", label, base.err)
+			// without a fault the output phase fails: nothing was interrupted, so
+			// this is not this property's business (and not the harness's fault
+			// either: on a changed tree a strategy may refuse a case it used to
+			// handle); the case is skipped and counted
+			r.Probe("fault-free-run-failed")
+			r.Logf("fault-free output phase failed for %s: %v", label, base.err)
+			c13CheckFinal(r, c, label, "base", "-", base, oldDest, destExisted, nil, false)
 			return
 		}
 		news = append(news, base.dest)
